@@ -164,6 +164,29 @@ def face_permutations(repo: Repo) -> RuleRun:
             f"(resulting order {p1}); the argument passed to shift() does not bring the nearest index to position 0"
         )
         r.check(ok, reorient, f"nearest corner {k} becomes first", f"Face.reorient: {detail}", reorient.node, key=f"reorient->{k}")
+    # history independence: the same calls on a second face, in the same (abstract) process, give the same result as
+    # on a fresh one - a permutation kept in class-level or module-level state and changed in place leaks between calls
+    for label, calls in (("shift(1) twice", [(shift, [1]), (shift, [1])]), ("shift(-1) then invert then shift(2)", [(shift, [-1]), (invert, []), (shift, [2])]), ("invert twice", [(invert, []), (invert, [])])):
+        ev = Evaluator(repo=repo, module=shift.module)
+        warm = sym_face(repo)
+        for fn_, args_ in calls:
+            _run(ev, fn_, [warm, *args_])
+        second = sym_face(repo)
+        for fn_, args_ in calls:
+            _run(ev, fn_, [second, *args_])
+        fresh = sym_face(repo)
+        for fn_, args_ in calls:
+            _run(Evaluator(repo=repo, module=shift.module), fn_, [fresh, *args_])
+        same = [repr(x) for x in second.get("points")] == [repr(x) for x in fresh.get("points")] and [repr(x) for x in second.get("edges")] == [repr(x) for x in fresh.get("edges")]
+        r.check(
+            same,
+            shift,
+            f"{label}: a second face behaves like a fresh one",
+            f"Face permutations depend on earlier calls: after '{label}' on one face, the same calls on another face give points {second.get('points')} / edges {second.get('edges')} "
+            f"instead of {fresh.get('points')} / {fresh.get('edges')} - state shared between calls or between faces (a class-level container rotated in place?)",
+            shift.node,
+            key=f"history:{label}",
+        )
     return r
 
 
@@ -396,6 +419,25 @@ def side_addressing(repo: Repo) -> RuleRun:
             r.check(setnames == [side], sp, f"set_patch({side!r}) sets the {side} slot", f"set_patch({side!r}{' as list' if as_list else ''}) writes the slot(s) of side(s) {setnames}", sp.node, key=f"set_patch:{side}:{'list' if as_list else 'str'}")
             names = _run(evaluator(pn), pn, [op])
             r.check(names == {side: "PATCH"}, pn, f"patch_names reports {names}", f"after set_patch({side!r}) patch_names reports {names!r}; writer and reader of the per-side slots disagree", pn.node, key=f"patch_names:{side}")
+
+    # lists of several sides, in different orders: every listed side gets the patch, wherever it stands in the list
+    all_sides = list(hexa.SIDE_PLANE)
+    multi = [["top", "bottom"], ["bottom", "top"], ["left", "top", "front"], ["front", "bottom", "right", "back"], all_sides, list(reversed(all_sides))]
+    for sides in multi:
+        op = real_operation(repo)
+        _run(evaluator(sp), sp, [op, list(sides), "PATCH"])
+        slots = {"bottom": op.get("bottom_face").get("patch_name"), "top": op.get("top_face").get("patch_name")}
+        for i, v in enumerate(op.get("side_patches")):
+            slots[hexa.face_edge_side(i)] = v
+        setnames = sorted(k for k, v in slots.items() if v == "PATCH")
+        r.check(
+            setnames == sorted(sides),
+            sp,
+            f"set_patch({sides}) sets exactly these sides",
+            f"set_patch({sides}, name) writes the slot(s) of side(s) {setnames}: every side of the list must receive the patch, whatever its position in the list",
+            sp.node,
+            key=f"set_patch:list:{'-'.join(sides)}",
+        )
 
     # project_side
     ps = repo.func("construct.operations.operation.Operation.project_side")
